@@ -138,7 +138,7 @@ PROPS = {
     "C09": {
         "lines": ['rollback', 'root', 'dread', 'seqn', 'reopen', 'commit', 'trycommit'],
         "tags": ['C09', 'C01', 'C02'],
-        "runs": DB_SCN(["stale-nonblocking-then-rollback", "reopen-resurrects-pruned-delta", "rollback-all-then-reopen", "overwrite-huge-value-with-rollback"]) + [
+        "runs": DB_SCN(["stale-nonblocking-then-rollback", "reopen-resurrects-pruned-delta", "rollback-all-then-reopen", "rollback-reopen-rollback-reopen", "overwrite-huge-value-with-rollback"]) + [
             DB("rollback", 200, 2000, nops=18), DB("general", 80, 800, nops=16, big=True), CHURN],
         "rule": DB_RULE + " C09 focus: max_rollback_log_len in {1,2,3,5}; rollback(n) with n in {0,1,2,len,len+1}; rollbacks after reopen, after stale commits, over overlay commits and large values; the oracle keeps the previous committed maps.",
         "trusted_base": API_TB, "assumptions": API_ASSUME + ["segment roll-over of the rollback log needs the segment-size hook (not yet installed): covered only through the 64 MiB default, i.e. not reached by quick runs"],
@@ -177,7 +177,7 @@ PROPS = {
     },
     "C10": {
         "tags": ['C10', 'C01', 'C02', 'C05', 'C09'],
-        "runs": DB_SCN(["reopen-resurrects-pruned-delta", "rollback-all-then-reopen"]) + [DB("reopen", 200, 2000, nops=18), DB("reopen", 6, 60, nops=16, big=True, scale=50, shards_q=6), DB("rollback", 60, 600, nops=16),
+        "runs": DB_SCN(["reopen-resurrects-pruned-delta", "rollback-all-then-reopen", "rollback-reopen-rollback-reopen"]) + [DB("reopen", 200, 2000, nops=18), DB("reopen", 6, 60, nops=16, big=True, scale=50, shards_q=6), DB("rollback", 60, 600, nops=16),
                  CRASH("crash", "reopen", 2, 20, steps=1, shards_q=2), CHURN],
         "rule": DB_RULE + " C10 focus: the handle is dropped and reopened (with an independently drawn runtime configuration: workers, cache sizes, io workers, warm-up, prepopulation, upper levels) at random positions, up to half of all steps; after every reopen root, sync_seqn, sampled values, hash_table_utilization().occupied (must equal the pre-close value) and all later commits / rollbacks are compared with a model that ignores close/open.",
         "trusted_base": API_TB, "assumptions": API_ASSUME + ["open retried for up to 5 s when the old handle's directory lock is still held by a background thread (that delay is C20's subject)"],
